@@ -355,6 +355,11 @@ func scanT[T any](pre func() T) destFn {
 			if v, ok := m["X"]; ok {
 				c.Val = dump(reflect.ValueOf(&v).Elem())
 			}
+			c.All = map[string]*proto.GoVal{}
+			for k := range m {
+				v := m[k]
+				c.All[k] = dump(reflect.ValueOf(&v).Elem())
+			}
 		}
 		cells = append(cells, c)
 		return cells
